@@ -32,27 +32,49 @@ end Vec
 
 /-! ## the generic tree recursion -/
 
-/-- What `_BuildTree` needs to know about phase space. `ham z = none` encodes a non-finite
-    Hamiltonian (NaN or -inf log-density): every comparison with it is `False`, as in IEEE. -/
+/-- IEEE value of a log-density / Hamiltonian: finite, NaN, +inf or -inf. -/
+inductive XR where
+  | fin (q : Rat) | nan | pinf | ninf
+  deriving Repr, BEq, DecidableEq
+
+/-- `a <= x` for a finite `a` (IEEE: false for NaN, true for +inf, false for -inf) -/
+def XR.geRat (x : XR) (a : Rat) : Bool :=
+  match x with
+  | .fin q => decide (a ≤ q)
+  | .pinf => true
+  | _ => false
+
+/-- `a < d + x` for finite `a`, `d` -/
+def XR.gtRatShift (x : XR) (d a : Rat) : Bool :=
+  match x with
+  | .fin q => decide (a < d + q)
+  | .pinf => true
+  | _ => false
+
+def XR.isFinite : XR → Bool
+  | .fin _ => true
+  | _ => false
+
+/-- `x - k` for finite `k` -/
+def XR.subRat (x : XR) (k : Rat) : XR :=
+  match x with
+  | .fin q => .fin (q - k)
+  | y => y
+
+/-- What `_BuildTree` needs to know about phase space; `ham z` is the IEEE value of the Hamiltonian. -/
 structure Ctx (Z : Type) where
   step : Int → Z → Z
-  ham : Z → Option Rat
+  ham : Z → XR
   noUturn : Z → Z → Bool        -- arguments: (minus end, plus end)
   logu : Rat
   ham0 : Rat
   deltaMax : Rat := 1000
 
 /-- `n_prime = int(log_u <= Ham_prime)` -/
-def inSlice {Z} (c : Ctx Z) (z : Z) : Bool :=
-  match c.ham z with
-  | some h => decide (c.logu ≤ h)
-  | none => false
+def inSlice {Z} (c : Ctx Z) (z : Z) : Bool := (c.ham z).geRat c.logu
 
 /-- `s_prime = int(log_u < Delta_max + Ham_prime)` -/
-def notDiverged {Z} (c : Ctx Z) (z : Z) : Bool :=
-  match c.ham z with
-  | some h => decide (c.logu < c.deltaMax + h)
-  | none => false
+def notDiverged {Z} (c : Ctx Z) (z : Z) : Bool := (c.ham z).gtRatShift c.deltaMax c.logu
 
 structure Tree (Z : Type) where
   zminus : Z
@@ -154,33 +176,34 @@ def nutsStep {Z} (c : Ctx Z) (guard : Z → Bool) (maxDepth : Nat) (z0 : Z) (us 
 structure PS where
   x : List Rat
   r : List Rat
-  logd : Option Rat
+  logd : XR
   grad : List Rat
   deriving Repr, BEq
 
 def dotQ (a b : List Rat) : Rat := (List.zipWith (· * ·) a b).foldl (· + ·) 0
 
-/-- target `logd x = -½ xᵀ P x + bᵀ x` (finite) unless `x₀ > wall` where it is NaN;
-    gradient `-P x + b` everywhere. -/
+/-- target `logd x = -½ xᵀ P x + bᵀ x` (finite) unless `x₀ > wall` where it is `wallVal`
+    (NaN, +inf or -inf); gradient `-P x + b` everywhere. -/
 structure Target where
   P : List (List Rat)
   b : List Rat
   wall : Option Rat
+  wallVal : XR := .nan
 
 def Target.grad (t : Target) (x : List Rat) : List Rat :=
   List.zipWith (fun row bi => bi - dotQ row x) t.P t.b
 
-def Target.logd (t : Target) (x : List Rat) : Option Rat :=
+def Target.logd (t : Target) (x : List Rat) : XR :=
   let val := dotQ t.b x - (1/2) * dotQ x (t.P.map (fun row => dotQ row x))
   match t.wall with
-  | some w => if x.headD 0 > w then none else some val
-  | none => some val
+  | some w => if x.headD 0 > w then t.wallVal else .fin val
+  | none => .fin val
 
 def psStep (t : Target) (eps : Rat) (v : Int) (z : PS) : PS :=
   let (x1, r2, g1) := leapfrog (1/2 : Rat) t.grad ((v : Rat) * eps) z.x z.r z.grad
   { x := x1, r := r2, logd := t.logd x1, grad := g1 }
 
-def psHam (z : PS) : Option Rat := z.logd.map (fun l => l - (1/2) * dotQ z.r z.r)
+def psHam (z : PS) : XR := z.logd.subRat ((1/2) * dotQ z.r z.r)
 
 def psNoUturn (zm zp : PS) : Bool :=
   let d := List.zipWith (· - ·) zp.x zm.x
@@ -193,8 +216,8 @@ def psCtx (t : Target) (eps logu ham0 : Rat) : Ctx PS :=
     the harness to discard cases where float rounding could flip a comparison). -/
 def margin (c : Ctx PS) (leaves : List PS) : Rat :=
   leaves.foldl (fun m z => match c.ham z with
-    | some h => min m (min (if h - c.logu < 0 then c.logu - h else h - c.logu)
+    | .fin h => min m (min (if h - c.logu < 0 then c.logu - h else h - c.logu)
                            (if c.deltaMax + h - c.logu < 0 then c.logu - c.deltaMax - h else c.deltaMax + h - c.logu))
-    | none => m) 1000000
+    | _ => m) 1000000
 
 end CuqiVerif.C08
